@@ -706,6 +706,31 @@ def recursion_rule(R, rid, root_name):
             continue
         e = ent[0]
         if e["mode"] == "guarded":
+            # iteration also nests: a loop of the recursive-descent component that wraps its running result into a new tree node on
+            # every pass (`lhs = Node(lhs, rhs)`) builds a left-deep tree as deep as the chain is long.  Every such pass must go
+            # through the depth guard, or the functions that later recurse over the tree (conversion, drop) overflow the stack.
+            for k_ in sorted(comp):
+                g_ = P.fns[k_]
+                if g_.kind == "Closure":
+                    continue
+                for hdr, body in g_.loops().items():
+                    builds = [i for i, st in g_.stmts() if i in body and st["k"] == "assign" and st["rv"]["k"] == "aggr" and
+                              re.search(r"ExpressionTreeData$|ExpressionTree$", st["rv"].get("adt") or "") and
+                              any("alloc::boxed::Box<" in (o.get("ty") or "") for o in st["rv"]["ops"] if isinstance(o, dict))]
+                    if not builds:
+                        continue
+                    guard_blocks = set(c.bb for c in g_.calls if any(k2 in guard_callers and k2 not in comp for k2 in P.callee_keys(g_, c)))
+                    self_guard = any(s_["rv"]["k"] == "aggr" and s_["rv"].get("variant") == "TooDeepExpression" for i2, s_ in g_.stmts() if i2 in body)
+                    unguarded_pass = [b_ for b_ in builds if hdr in g_.reachable_from(b_, avoid=guard_blocks) and
+                                      b_ in g_.reachable_from(hdr, avoid=guard_blocks)]
+                    keyl = "loop|" + g_.spath.split("::")[-1]
+                    if unguarded_pass and not self_guard:
+                        R.violation(rid, "unguarded-" + keyl,
+                                    "%s grows the expression tree by one level per loop pass without passing the depth guard: a long flat "
+                                    "chain (`a + a + a + ...`) yields a tree deeper than any bound, and the recursive passes over it "
+                                    "(conversion, drop) overflow the stack" % g_.path, [g_.loc(unguarded_pass[0])])
+                    else:
+                        R.ok(rid, keyl, "every pass that nests the tree one level deeper goes through the depth guard", g_.loc(hdr), nontrivial=False)
             rest = set(comp) - guard_callers
             # is the rest acyclic?
             sub = {a: set(b for b in g[a] if b in rest) for a in rest}
